@@ -1,38 +1,136 @@
 package trzsz
 
-func verifNondetBool() bool
-func verifAssert(bool, string)
-func verifReach(string)
-func verifQuiesce()
-func verifAdvanceTime()
-func verifLiveThreads() int
+// C19 — a zmodem session always ends by handing the terminal back.
+// The real session object runs against stub helper process, pipes and timers; the harness plays the remote side,
+// the user and the passing of time, choosing one event per step nondeterministically.
 
-type zzSink struct{ n int }
+type zzSink19 struct{ data []byte }
 
-func (s *zzSink) Write(p []byte) (int, error) { s.n += len(p); return len(p), nil }
+func (s *zzSink19) Write(p []byte) (int, error) {
+	s.data = append(s.data, p...)
+	return len(p), nil
+}
 
-// helper cannot be started (or the path chooser fails); the server stays silent afterwards
-func zzH_C19_helperMissing() {
-	z := &zmodemTransfer{upload: false}
-	srv, cli := &zzSink{}, &zzSink{}
-	chooserFails := verifNondetBool()
-	go z.handleZmodemEvent(nil, srv, cli, nil, func() (string, error) {
-		if chooserFails {
-			return "", errUserCanceled
+func zzContains19(hay, needle []byte) bool {
+	for s := 0; s+len(needle) <= len(hay); s++ {
+		ok := true
+		for k := range needle {
+			if hay[s+k] != needle[k] {
+				ok = false
+				break
+			}
 		}
-		return "/tmp", nil
-	})
-	verifQuiesce()
-	// the remote side is quiet: no handleServerOutput calls; let every armed timer fire
-	verifAdvanceTime()
-	verifQuiesce()
-	verifAdvanceTime()
-	verifQuiesce()
-	if z.stopped.Load() {
-		verifAssert(srv.n > 0, "no cancel sequence sent to the server")
-		verifAssert(!z.isTransferringFiles(), "session still claims the terminal after the line went quiet")
-		verifReach("stopped")
+		if ok {
+			return true
+		}
+	}
+	return false
+}
+
+const zzInitDownload = "**\x18B00000000000000\r"
+const zzInitUpload = "**\x18B0100000000000000\r"
+const zzFinish = "**\x18B0800000000022d"
+
+func zzH_C19_session() {
+	srv, cli := &zzSink19{}, &zzSink19{}
+	upload := verifNondetBool()
+	hdr := zzInitDownload
+	if upload {
+		hdr = zzInitUpload
+	}
+	z := detectZmodem([]byte(hdr))
+	verifAssert(z != nil, "start header not recognised")
+	if z == nil {
+		return
+	}
+	verifAssert(z.upload == upload, "direction misread")
+	chooserFails := verifNondetBool()
+	go z.handleZmodemEvent(nil, srv, cli,
+		func() ([]string, error) {
+			if chooserFails {
+				return nil, errUserCanceled
+			}
+			return []string{"/tmp/f"}, nil
+		},
+		func() (string, error) {
+			if chooserFails {
+				return "", errUserCanceled
+			}
+			return "/tmp", nil
+		})
+	verifQuiesce() // the event handler has taken over the streams
+	dropped := false // the filter drops the session as soon as it declines server output
+	feed := func(b []byte) {
+		if !dropped && !z.handleServerOutput(b) {
+			dropped = true
+		}
+	}
+	for step := 0; step < verifBound("STEPS"); step++ {
+		switch verifNondetRange(0, 6) {
+		case 0:
+			feed([]byte("data"))
+		case 1:
+			feed([]byte(zzFinish))
+		case 2:
+			feed(zmodemCancelFullSequence)
+		case 3:
+			verifHelperExit(verifNondetRange(0, 1))
+		case 4:
+			verifHelperOutput([]byte("resp"))
+		case 5:
+			z.stopTransferringFiles() // Ctrl-C
+		case 6:
+			verifAdvanceTime()
+		}
+		verifQuiesce()
+	}
+	// from here on the remote side is quiet; let every armed timer fire (and the ones they arm)
+	for i := 0; i < 4; i++ {
+		verifAdvanceTime()
+		verifQuiesce()
+	}
+	verifAssert(z.stopped.Load(), "session still running although the line has been quiet beyond every timeout")
+	verifAssert(!z.isTransferringFiles(), "session still claims the terminal after the line went quiet")
+	if !dropped {
+		verifAssert(!z.handleServerOutput([]byte("probe")), "remote output swallowed after the session ended")
+	}
+	st := verifHelperState()
+	verifAssert(st != 1, "helper process left running")
+	if z.errorOccurred.Load() {
+		verifAssert(zzContains19(srv.data, zmodemCancelFullSequence), "abnormal end without the cancel sequence to the remote side")
+		verifReach("aborted")
 	} else {
-		verifReach("running")
+		verifReach("ended")
+	}
+}
+
+// output that carries a cancel sequence or 'cannot open' next to a header starts nothing
+func zzH_C19_veto() {
+	var buf []byte
+	pre := verifNondetRange(0, 2)
+	for i := 0; i < pre; i++ {
+		buf = append(buf, verifNondetByte())
+	}
+	if verifNondetBool() {
+		buf = append(buf, zzInitDownload...)
+	} else {
+		buf = append(buf, zzInitUpload...)
+	}
+	veto := verifNondetRange(0, 2)
+	if veto == 1 {
+		buf = append(buf, zmodemCancelSubSequence...)
+	} else if veto == 2 {
+		buf = append(buf, "rz: cannot open /dev/tty"...)
+	}
+	post := verifNondetRange(0, 2)
+	for i := 0; i < post; i++ {
+		buf = append(buf, verifNondetByte())
+	}
+	z := detectZmodem(buf)
+	if veto != 0 {
+		verifAssert(z == nil, "session started although the output carries a cancel / cannot-open message")
+		verifReach("vetoed")
+	} else if z != nil {
+		verifReach("started")
 	}
 }
